@@ -50,7 +50,9 @@ def _ctorlike(c: ast.Call) -> bool:
 
 
 def _flag_calls(fi: FunctionInfo, var: str, meth: str) -> list[ast.Call]:
-    return [c for c in calls(fi) if last_attr(c) == meth and isinstance(c.func, ast.Attribute) and txt(c.func.value).split(".")[-1] == var]
+    """`<var>.<meth>(...)` calls, where the context variable may be imported under an alias."""
+    names = {var} | {local for local, imp in fi.module.imports.items() if imp[0] == "name" and imp[2] == var}
+    return [c for c in calls(fi) if last_attr(c) == meth and isinstance(c.func, ast.Attribute) and txt(c.func.value).split(".")[-1] in names]
 
 
 def run(ctx: Ctx) -> None:
@@ -210,11 +212,15 @@ def run(ctx: Ctx) -> None:
               ok=f"process_response reads req.context.{stored[chosen]} / .{stored[custom]} written by process_request",
               bad=f"process_response reads {sorted(map(str, gets))} but process_request stores {sorted(stored.values())}")
     if stored[chosen] in gets and stored[custom] in gets:
+        rparams = [p.arg for p in pres.node.args.args if p.arg != "self"]
+        if len(rparams) < 2:
+            raise AnalysisError("C19: process_response has no response parameter")
+        resp_name = rparams[1]
         pre_gets = _flag_calls(pres, FLAG, "get")
         if not pre_gets:
             ctx.fail("RF-DOM", "precompressed-not-recompressed", pres, None, "process_response never consults the pre-compressed flag: a producer body compressed in-stream is compressed again")
         hdr_sets = [c for c in calls(pres) if last_attr(c) == "set_header" and c.args and isinstance(c.args[0], ast.Constant)]
-        data_sets = [n for n in walk_scope(pres.node) if isinstance(n, ast.Assign) and any(isinstance(t, ast.Attribute) and t.attr in ("data", "text", "stream") and txt(t.value) == "resp" for t in n.targets)
+        data_sets = [n for n in walk_scope(pres.node) if isinstance(n, ast.Assign) and any(isinstance(t, ast.Attribute) and t.attr in ("data", "text", "stream") and txt(t.value) == resp_name for t in n.targets)
                      and not (isinstance(n.value, ast.Constant) and n.value.value is None)]
         ct_attr = [n for n in walk_scope(pres.node) if isinstance(n, ast.Attribute) and n.attr == "content_type"]
         ct_cmp = [n for n in walk_scope(pres.node) if isinstance(n, ast.Compare) and any(isinstance(x, ast.Attribute) and x.attr == "content_type" for x in ast.walk(n))]
